@@ -1,7 +1,7 @@
 //! Family "queue": histories on a real QueuingMetricSink (real threads, real crossbeam) around a gated
 //! wrapped sink. case syntax:  cap=<n|u>;ops=<op,op,...>;out=<o|e|p,...>
 //!   ops: e<h> emit on handle h | c<h> clone handle h | d<h> drop handle h | r let the wrapped sink finish one metric
-//!   out: outcome of the wrapped sink for the k-th metric it is handed: o = Ok, e = Err, p = panic
+//!   out: outcome of the wrapped sink for the k-th metric it is handed: o = Ok, z = Ok(0), e = Err(TimedOut), i = Err(Interrupted), p = panic
 //! At the end every remaining gate is opened, every handle dropped, and the wrapped sink must be dropped.
 use crate::rng::Rng;
 use cadence::{MetricSink, QueuingMetricSink};
@@ -28,6 +28,8 @@ impl MetricSink for Gated {
         match self.outs.get(k).copied().unwrap_or('o') {
             'p' => panic!("scripted panic"),
             'e' => Err(io::Error::new(io::ErrorKind::TimedOut, format!("scripted error {}", k))),
+            'i' => Err(io::Error::new(io::ErrorKind::Interrupted, format!("scripted error {}", k))),
+            'z' => Ok(0),
             _ => Ok(m.len()),
         }
     }
@@ -167,7 +169,7 @@ fn check_inner(c: &Case) -> Vec<(String, String)> {
         if entered.len() < accepted.len() && p != "C08" { fails.push(("C08".into(), format!("accepted {:?}, delivered {:?}", accepted, entered))); }
     }
     if !wrapped_dropped { fails.push(("C09".into(), "after the last handle was dropped and every queued metric released, the wrapped sink was not dropped within 12 s (the background thread did not terminate)".into())); }
-    let errs = c.outs.iter().take(entered.len()).filter(|o| **o == 'e').count();
+    let errs = c.outs.iter().take(entered.len()).filter(|o| **o == 'e' || **o == 'i').count();
     let got = handled.lock().unwrap().len();
     if got != errs { fails.push(("C16".into(), format!("the wrapped sink failed {} time(s) but the error handler was invoked {} time(s)", errs, got))); }
     finish(fails)
@@ -192,7 +194,7 @@ pub fn search(prop: &str, seed: u64, budget: u64) -> Option<(String, Vec<(String
                 _ => ops.push(('e', rng.below(nh as u64) as usize)),
             }
         }
-        let outs: Vec<char> = (0..8).map(|_| match rng.below(6) { 0 => 'p', 1 => 'e', _ => 'o' }).collect();
+        let outs: Vec<char> = (0..8).map(|_| match rng.below(8) { 0 => 'p', 1 => 'e', 2 => 'i', 3 => 'z', _ => 'o' }).collect();
         let c = Case { cap, ops, outs };
         let fails = check(&c);
         if fails.iter().any(|(p, _)| p == prop) {
